@@ -1,5 +1,5 @@
 # replay of a bounded stand-in violation (C09/C10): re-run native/c09_engine.py
 import sys
-print('fock [Del q0 then measure q1, feed q2]: raised ParameterError: q1: trying to use a nonexistent measurement result (e.g., before it has been measured). (after [])')
+print("C10: creating the free parameter 'a' in a second program reset/aliased the bound parameter 'a' of the first program")
 print('REPLAY-VIOLATION')
 sys.exit(1)
